@@ -18,7 +18,7 @@ class Fine(Process):
 
 
 def on_alarm(signum, frame):
-    print('update(1.0) did not return within 10 s (global time still %r)' % eng.global_time)
+    print('update(1.0) did not return within 10 s')
     sys.exit(1)
 
 
@@ -32,6 +32,17 @@ try:
 except ValueError as e:
     print('refused:', str(e)[:160])
     ok = 'timestep' in str(e)
+signal.alarm(0)
+# a timestep of exactly HALF a grid cell (precision 1, 0.05): on its own it rounds to a full cell, but from 0.2 the sum 0.25 rounds
+# half-to-even back onto 0.2 -- the same stall two ticks later.  The call must end: by an error that names the timestep, or at 1.0
+eng3 = Engine(processes={'p': Fine({'timestep': 0.05})}, topology={'p': {'s': ('s',)}}, global_time_precision=1, display_info=False, emitter='null')
+signal.alarm(10)
+try:
+    eng3.update(1.0)
+    ok = ok and eng3.global_time == 1.0
+except ValueError as e:
+    print('refused:', str(e)[:120])
+    ok = ok and 'timestep' in str(e)
 signal.alarm(0)
 # a timestep ON the grid keeps working
 eng2 = Engine(processes={'p': Fine({'timestep': 0.25})}, topology={'p': {'s': ('s',)}}, global_time_precision=2, display_info=False, emitter='null')
